@@ -49,6 +49,10 @@ def run_sim(spec):
             rec = observed_run(path, wl)
         finally:
             os.remove(path)
+    elif spec.get("debug_log"):
+        from verif.runner import package_logging_on
+        with package_logging_on():
+            rec = observed_run(params, wl)
     else:
         rec = observed_run(params, wl)
     return rec, params
